@@ -240,6 +240,12 @@ fn hyrax(ctx: &mut Ctx, rng: &mut ChaCha20Rng) {
     p4[0].com_eval = (tx.w.vk.com_key[0].mul(bad[0]) + tx.w.vk.h.mul(JFr::rand(rng))).into_affine();
     let o = check::<S>(&tx.w.vk, &comms, &z, &bad, &p4, &mut tx.sponge(), 2);
     judge(ctx, "com-eval-replaced", "check", &desc, true, &o, json!({}));
+    // the two proof elements exchanged between the two polynomials (true values: the transcript order must matter)
+    let mut p6 = proof.clone();
+    p6.swap(0, 1);
+    let distinct_polys = tx.polys[0].polynomial() != tx.polys[1].polynomial();
+    let o = check::<S>(&tx.w.vk, &comms, &z, &bad, &p6, &mut tx.sponge(), 2);
+    judge(ctx, "proof-elements-swapped", "check", &desc, distinct_polys, &o, json!({}));
     let mut p5 = proof.clone();
     p5[0].z_d += JFr::one();
     let o = check::<S>(&tx.w.vk, &comms, &z, &bad, &p5, &mut tx.sponge(), 2);
